@@ -30,6 +30,7 @@ void _ZdlPv(void* p) { free(p); }                                   /* operator 
 
 _Bool nondet_bool(void);
 int nondet_int(void);
+unsigned nondet_uint(void);
 long nondet_long(void);
 unsigned long nondet_ulong(void);
 unsigned char nondet_uchar(void);
